@@ -9,7 +9,7 @@ SCOPE = [("manager.trim", 400, 60), ("ind.life:ALL", 150, 40), ("hexital.life", 
 ORACLE_RULE = ("C15b: purely recursive indicators appended one candle at a time under a lifespan that always keeps the predecessor, compared exactly with an untrimmed twin; C15a: random stream x lifespan x optional timeframe/fill x append schedule on the real CandleManager; retained candles compared exactly "
                "with the independently computed window of the (resampled) stream after every append")
 ASSUMPTIONS = ["TZ=UTC for this check", "lifespan >= 0"]
-PARTIAL = 'window clause proved for every schedule without a timeframe; with a timeframe and the readings clause: correspondence + oracle with an untrimmed twin'
+PARTIAL = 'window clause proved for every schedule, without and with a collapsing timeframe; readings clause proved for EVERY leaf indicator class over every construction prefix and append schedule (C15b_leaf: look-back max(1, window k) retained at each popping append; C15b_FULL_holds: EMA/RMA without seededness) from the bounded-footprint theorem; composites, Hexital members and the combination with a timeframe (C15b_trees_FULL): correspondence + oracle with an untrimmed twin at the tightest admissible window'
 _case = om.make_case(ID, tf="maybe", life=True)
 _case_fill = om.make_case(ID, tf=True, fill=True, life=True)
 
